@@ -126,6 +126,15 @@ def underRange (dir : Str) (labels : List Str) : List Str :=
   | some hi => labels.filter fun l => inRange dir hi l
   | none => []
 
+/-- The spelling of the project root as a directory target (`tui._normalize_targets`: `Path(".") / ""`). -/
+def rootDir : Str := [46, slash]
+
+/-- Directory-target sites (`has_regular_output_under`, the `target_dir` rows behind `RECONCILE_TARGET_DIRS`
+and `UPDATE_CHECK_AFTER`): the project root contains every label (no range: lower bound `""`, no upper
+bound); any other directory is its prefix range. -/
+def underTarget (dir : Str) (labels : List Str) : List Str :=
+  if dir = rootDir then labels else underRange dir labels
+
 /-- `clean.search_matching_paths` for one argument other than `"."`. -/
 def cleanMatching (cs : Bool) (arg : Str) (labels : List Str) : List Str :=
   labels.filter fun l => l == arg || likePrefix cs (addSlash arg) l
